@@ -17,6 +17,8 @@ def one(name):
     prop = meta["property"]
     if not meta.get("confirmed", True):
         return name, prop, "n/a (no longer breaks the property on the repaired tree)", "", ""
+    if meta.get("outside_claim"):
+        return name, prop, "n/a (outside what the check judges: see meta.json)", "", ""
     wt = f"/tmp/wt/cm_{name}"
     subprocess.run(["git", "-C", "/repo", "worktree", "add", "--detach", wt, "HEAD", "-q"], check=True)
     try:
